@@ -37,13 +37,19 @@ class Stage:
     """
 
     def __init__(self, name, prop, cases, check, bound, classify=None, nontrivial=None,
-                 parallel=True, exhaustive=False, assumptions=(), max_report=5, weight=None):
+                 parallel=True, exhaustive=False, assumptions=(), max_report=5, weight=None,
+                 exact_file=None, exact_applies=None, case_key=None):
         self.name, self.prop, self.cases, self.check = name, prop, cases, check
         self.bound, self.classify, self.nontrivial = bound, classify, nontrivial
         self.parallel, self.exhaustive = parallel, exhaustive
         self.assumptions = list(assumptions)
         self.max_report = max_report
         self.weight = weight
+        # exhaustively enumerated cases: a failing case counts as a known finding only if it is one of the
+        # inputs committed in `exact_file` ({finding id: [case keys]}; never written by a check)
+        self.exact_file, self.exact_applies = exact_file, exact_applies or (lambda case: True)
+        self.case_key = case_key or repr
+        self._exact = None
 
     def _run_chunk(self, chunk):
         out = []
@@ -93,6 +99,9 @@ class Stage:
                    samples=[codec.enc(c) for c in cases[:3]])
         for case, d in fails:
             fid = self.classify(case, d) if self.classify else None
+            if fid is not None and self.exact_file and self.exact_applies(case):
+                if self.case_key(case) not in self.exact_set().get(fid, ()):
+                    fid = None
             if fid is not None and fid in known_ids:
                 if fid not in [k['id'] for k in res['known']]:
                     res['known'].append(known_ids[fid])
@@ -104,6 +113,13 @@ class Stage:
                                               solver_output='bounded stage (native execution)'))
         res['failures'] = len(fails)
         return res
+
+    def exact_set(self):
+        if self._exact is None:
+            import json
+            fn = os.path.join(os.path.dirname(__file__), '..', self.exact_file)
+            self._exact = {k: set(v) for k, v in json.load(open(fn)).items()} if os.path.exists(fn) else {}
+        return self._exact
 
     def replay(self, v):
         case = codec.dec(v['args'])
